@@ -578,6 +578,21 @@ def c07(ix: Index) -> None:
         firsts.sort()
         entry = firsts[0][1]
         if ev in redisp:
+            # dispatched more than once by user code (again to the same bus, or handed to another bus): the buses that process it
+            # are those reachable from EVERY bus it was handed to; counts and path order are not constrained here
+            entries = {r['bus'] for r in ix.enq_ok if r['ev'] == ev and r['by'] != 'F'}
+            stopped = _stopped_buses(ix)
+            reach_m, st_m = set(entries), list(entries)
+            while st_m:
+                x = st_m.pop()
+                for a, d, p in sc.get('fwd', []):
+                    if a == x and pat_matches(p, t) and d not in reach_m:
+                        reach_m.add(d)
+                        st_m.append(d)
+            got_m = {b for (e, b), lst in ix.procs_by.items() if e == ev and lst}
+            ix.C['c07_redispatched_events'] += 1
+            if got_m != reach_m and not (stopped & reach_m):
+                ix.v('C07', 'reach-set-after-redispatch', None, ev=ev, handed_to=sorted(entries), want=sorted(reach_m), got=sorted(got_m))
             continue
         reach, st = {entry}, [entry]
         while st:
